@@ -211,6 +211,20 @@ CHECKS['C02'] = dict(
          'malformed reused ancillaries are outside the model (the property names sizes, clashing names and wrong types).',
     ref='§5 C02')
 
+CHECKS['C11'] = dict(
+    technique='Lean 4 theorems over the composition model (2-D slice + unit values + ancillary writer) + differential correspondence with a coordinate-map oracle on files read back with raw h5py',
+    text=('Theorems (Usid/Properties/C11.lean): an accepted slice_to_dataset returns the 2-D slice of C07 as data; a side not '
+          'named in the dictionary reuses the source\'s ancillaries, a sliced side gets writeIndVal(remaining dimensions, '
+          'fastest-first) where the remaining dimensions are those with >= 2 unit values on the selected rows/columns, '
+          'ordered by their number of changes; a placeholder dimension remains when none is left. PARTIAL: the '
+          'coordinate-map equation itself composes C07 (rows_exact), C09 (unit values on sub-grids, not yet proved) and '
+          'C08 (written_slowest_first); it is decided by the oracle on every case: the new dataset is read back with raw '
+          'h5py and compared coordinate by coordinate (physical values of the remaining dimensions) with the source, no '
+          'element missing or duplicated, unsliced side linked to the source\'s datasets, source unchanged. Sources: '
+          'raw-h5py generator files in any storage order and files written by the library in both conventions.'),
+    note=COMMON_NOTE + 'np.argsort(kind=stable) tie order among equally often changing dimensions cannot occur on a sub-grid with >= 2 values per kept dimension.',
+    ref='§5 C11')
+
 REASON_PENDING = 'check not built yet in this round (planned: Lean model + theorems + correspondence, see DESIGN.md §5)'
 
 
